@@ -1,9 +1,11 @@
 /-
 `WaveShareNmea2000Gateway._receive_impl` (ioclient.py): the receive buffer algorithm of the
 serial (USB) client.  `feed buf data` = one call of `_receive_impl` after `read()` returned
-`data`: returns the new buffer and the 20-byte windows handed to `decode_usb`, in order.
-Tie: T3 (differential against the real client under every segmentation).
+`data`: returns the new buffer and the 20-byte windows handed to `decode_usb`, in order
+(only windows whose checksum matches are handed on).
+Tie: T3 (differential against the real client under every segmentation); the checksum is T2.
 -/
+import N2k.Gen.Straight
 namespace N2k.Serial
 
 abbrev Bytes := List Nat
@@ -16,7 +18,14 @@ def findMarker : Bytes → Option Nat
     if a = 0xaa ∧ b = 0x55 then some 0
     else (findMarker (b :: rest)).map (· + 1)
 
-/-- the `while True:` loop; `fuel` bounds the iterations (each consumes 20 bytes). -/
+/-- the client's own test of a 20-byte window: `calculate_canbus_checksum(packet) == packet[19]`
+(the checksum function is the T2 translation of the real one) -/
+def windowOk (w : Bytes) : Bool := Straight.checksum w = w.getD 19 0
+
+/-- the `while True:` loop; `fuel` bounds the iterations (each consumes at least 2 bytes).
+A window that fails its checksum is not a packet (line noise containing the marker, or a packet that lost
+bytes): only its marker is skipped and the search goes on right behind it, so that an intact packet that
+follows is not swallowed. -/
 def loop : Nat → Bytes → List Bytes → Bytes × List Bytes
   | 0, buf, acc => (buf, acc.reverse)
   | fuel + 1, buf, acc =>
@@ -26,11 +35,14 @@ def loop : Nat → Bytes → List Bytes → Bytes × List Bytes
       ((if buf.getLast? = some 0xaa then [0xaa] else []), acc.reverse)
     | some start =>
       if start + 20 > buf.length then (buf.drop start, acc.reverse)
-      else loop fuel (buf.drop (start + 20)) ((buf.drop start).take 20 :: acc)
+      else
+        let w := (buf.drop start).take 20
+        if windowOk w then loop fuel (buf.drop (start + 20)) (w :: acc)
+        else loop fuel (buf.drop (start + 2)) acc
 
 def feed (buf data : Bytes) : Bytes × List Bytes :=
   let b := buf ++ data
-  loop (b.length / 20 + 1) b []
+  loop (b.length / 2 + 1) b []
 
 /-- feed a sequence of reads. -/
 def feedAll (buf : Bytes) : List Bytes → Bytes × List Bytes
